@@ -103,6 +103,7 @@ def cases(tier):
     yield ('unlabelled', 0, 0)
     yield ('hier_ops', 0, 0)
     yield ('date_units', 0, 0)
+    yield ('matmul', 0, 0)
 
 
 def universe(tier):
@@ -553,6 +554,41 @@ def run_hier_ops(case, ctx):
     ctx.sample({'family': 'hier_ops', 'trees': len(HTREES)}, limit=1)
 
 
+def run_matmul(case, ctx):
+    '''the @ operator pairs the inner axis by label: every permutation of the inner labels on both operands, Series and Frame on either side'''
+    inner = ('a', 'b', 'c')
+    val = {l: i + 2 for i, l in enumerate(inner)}
+    for pa, pb in itertools.product(itertools.permutations(inner), repeat=2):
+        ctx.state(('matmul', pa, pb))
+        if pa != pb:
+            ctx.nontriv(('matmul', pa, pb))
+        info = dict(left_inner=pa, right_inner=pb)
+        sa = sf.Series([val[l] for l in pa], index=list(pa))
+        sb = sf.Series([val[l] * 10 for l in pb], index=list(pb))
+        fa = sf.Frame.from_records([[val[l], val[l] * 3] for l in pa], index=list(pa), columns=('p', 'q')).transpose()          # rows p, q; columns = inner labels in order pa
+        fb = sf.Frame.from_records([[val[l] * 10, val[l] * 7] for l in pb], index=list(pb), columns=('u', 'v'))                   # rows = inner labels in order pb
+        A = {('p', l): val[l] for l in inner} | {('q', l): val[l] * 3 for l in inner}
+        B = {(l, 'u'): val[l] * 10 for l in inner} | {(l, 'v'): val[l] * 7 for l in inner}
+        exp_ss = sum(val[l] * val[l] * 10 for l in inner)
+        checks = [
+            ('series@series', lambda: sa @ sb, lambda r: float(r) == exp_ss),
+            ('series@frame', lambda: sa @ fb, lambda r: {k: float(v) for k, v in r.items()} == {c: float(sum(val[l] * B[(l, c)] for l in inner)) for c in ('u', 'v')}),
+            ('frame@series', lambda: fa @ sb, lambda r: {k: float(v) for k, v in r.items()} == {rr: float(sum(A[(rr, l)] * val[l] * 10 for l in inner)) for rr in ('p', 'q')}),
+            ('frame@frame', lambda: fa @ fb, lambda r: {(i, c): float(r.loc[i, c]) for i in ('p', 'q') for c in ('u', 'v')} ==
+             {(i, c): float(sum(A[(i, l)] * B[(l, c)] for l in inner)) for i in ('p', 'q') for c in ('u', 'v')}),
+        ]
+        for name, fn, ok in checks:
+            ctx.transition()
+            try:
+                r = fn()
+                if not ok(r):
+                    ctx.violation(f'matmul|{name}|not-paired-by-label', **info, got=repr(r.values.tolist() if hasattr(r, 'values') else r))
+            except Exception as e:
+                ctx.violation(f'matmul|{name}|raises|{type(e).__name__}', **info, error=repr(e))
+    ctx.outcome('matmul')
+    ctx.sample({'family': 'matmul'}, limit=1)
+
+
 def run_date_units(case, ctx):
     '''Series / Frames labelled by the same instants held in datetime indices of different units (day, hour, second), every order on both sides:
     operators, reindex and set operations pair by instant.'''
@@ -598,5 +634,7 @@ def run_date_units(case, ctx):
 def run_case(case, ctx):
     if case[0] == 'date_units':
         return run_date_units(case, ctx)
+    if case[0] == 'matmul':
+        return run_matmul(case, ctx)
     {'hier_ops': run_hier_ops, 'setops': run_setops, 'setops_ih': run_setops_ih, 'series': run_series, 'frames': run_frames,
      'frame_series': run_frame_series, 'unlabelled': run_unlabelled}[case[0]](case, ctx)
